@@ -51,7 +51,14 @@ Qed.
 
 (* ---------------------------------------------------------------- steps that only answer *)
 Lemma settle_idle fuel m : mw m = work0 → settle fuel m = Done m.
-Proof. intros H. destruct fuel; cbn [settle]; unfold settle_one; rewrite H; reflexivity. Qed.
+Proof.
+  intros H.
+  assert (settle fuel m = match settle_one m with
+                          | None => Done m
+                          | Some (Done m') | Some (Fail m') => match fuel with O => Panic 0 | S f => settle f m' end
+                          | Some (Panic s) => Panic s end) as -> by (destruct fuel; reflexivity).
+  unfold settle_one. rewrite H. reflexivity.
+Qed.
 
 Definition m_of (s : state) : M := {| ms := s; mw := work0; mo := [] |}.
 
@@ -180,9 +187,9 @@ Proof.
   pose proof (handle_good (m_of s) c x (i_fresh i) (i_bserial i) H eq_refl L1 L2 L3) as Hg.
   rewrite Hh in Hg. cbn in Hg.
   unfold step in Hs. fold (m_of s) in Hs. rewrite Hh in Hs.
-  pose proof (settle_spec (fuel_for (ms m)) m Hg) as Hst.
-  pose proof (settle_ogrows (fuel_for (ms m)) m) as Hgr.
-  destruct (settle (fuel_for (ms m)) m) as [m'|m'|site]; [|done..].
+  pose proof (settle_spec (fuel_for m) m Hg) as Hst.
+  pose proof (settle_ogrows (fuel_for m) m) as Hgr.
+  destruct (settle (fuel_for m) m) as [m'|m'|site]; [|done..].
   inversion Hs; subst. destruct Hst as (_ & Hsh & _). exists m'. done.
 Qed.
 
